@@ -2,6 +2,7 @@
 import itertools
 
 from props import inbound_common as IB
+from props import sink_common as SC
 from props.base import Part
 
 USES_GEN = True
@@ -127,22 +128,35 @@ def parts(tier, rng):
     for p in IB.make_parts(tier, rng, ("C04",), clients=False):
         p.name = "connection-" + p.name
         res.append(p)
+    # .. with the outbound side busy: an inbound PUBLISH while the send window is full / write back-pressure is on
+    # (sink engines, operation 17) still gets its PUBACK
+    for p in SC.make_parts(tier, rng, {4}):
+        if p.name.endswith("role0"):
+            p.cases = [c for c in p.cases if ";17," in c]
+            p.name = "busy-sink-" + p.name
+            res.append(p)
     return res
 
 
 def replay_parts(rp):
+    if rp.get("engine", "respq").startswith("sink"):
+        return SC.replay_parts(rp, {4})
     if rp.get("engine", "respq") != "respq":
         return IB.replay_parts(rp, ("C04",))
     return [RQPart("replay", "respq", [rp["case"]], shards=1)]
 
 
 def known_signature(part, case, impl_obs, oracle):
+    if isinstance(part, SC.SinkPart):
+        return None
     if isinstance(part, IB.InbPart):
         return IB.known_signature(part, case, impl_obs, oracle)
     return None
 
 
 def clause_text(part, oracle):
+    if isinstance(part, SC.SinkPart):
+        return SC.clause_text(part, oracle)
     if isinstance(part, IB.InbPart):
         return IB.clause_text(part, oracle)
     f = oracle.split(";")[0].split(",")
